@@ -3,7 +3,13 @@
  * results are identical to the red-black tree; balance is unobservable. Colours keep only the header/root convention
  * that _Rb_tree_decrement relies on (header red, root black). std::list hooks verbatim. */
 #include "vp_prelude.h"
-typedef struct rbn { u32 color; struct rbn* parent; struct rbn* left; struct rbn* right; } rbn;
+/* same tag and fields as the ll2c output for %"struct.std::_Rb_tree_node_base" = { i32 color, parent*, left*, right* } */
+struct T_struct_std___Rb_tree_node_base { u32 f0; struct T_struct_std___Rb_tree_node_base* f1; struct T_struct_std___Rb_tree_node_base* f2; struct T_struct_std___Rb_tree_node_base* f3; };
+typedef struct T_struct_std___Rb_tree_node_base rbn;
+#define color f0
+#define parent f1
+#define left f2
+#define right f3
 #define RED 0
 #define BLACK 1
 static rbn* rb_min(rbn* x) { while (x->left) x = x->left; return x; }
@@ -67,7 +73,15 @@ void* vpx__ZSt28_Rb_tree_rebalance_for_erasePSt18_Rb_tree_node_baseRS_(void* zv,
   if (h->parent) h->parent->color = BLACK;
   return z;
 }
-typedef struct lnb { struct lnb* next; struct lnb* prev; } lnb;
+#undef color
+#undef parent
+#undef left
+#undef right
+/* %"struct.std::__detail::_List_node_base" = { next*, prev* } */
+struct T_struct_std____detail___List_node_base { struct T_struct_std____detail___List_node_base* f0; struct T_struct_std____detail___List_node_base* f1; };
+typedef struct T_struct_std____detail___List_node_base lnb;
+#define next f0
+#define prev f1
 void vpx__ZNSt8__detail15_List_node_base7_M_hookEPS0_(void* tv, void* pv) {
   lnb* t = tv; lnb* p = pv;
   t->next = p; t->prev = p->prev; p->prev->next = t; p->prev = t;
